@@ -132,4 +132,40 @@ def binDigitsRev : Nat → Nat → List Nat
 def binRev (m : Int) : List Nat :=
   binDigitsRev (m.natAbs + 1) m.natAbs ++ (if m < 0 then [45] else [])
 
+/-! ### the parser (`TlSchemas.deserialize`) -/
+
+/-- the key `'_'` of the one-field pseudo schema `{'_': subtype}` through which the elements of a vector of a base type are read
+(the dict built for it holds no other key and is dropped again by `deser['_']`). -/
+def pseudoKey : Nat := 0
+/-- the item `(field, type string)` of an `args` dict -/
+def argOf (k : Nat) (t : TyS) : Arg := ⟨k, t.cond, t.vec, t.ty⟩
+
+/-- `bin(result.get('mode', result.get('flags'))).replace('0b', '')[::-1]`: the value stored under `mode`, else under `flags`
+(`bin(None)` raises); only ints are in the modelled domain (`bin(True)` of a `Bool` field named `mode` = raises, as in the hand model). -/
+def maskOf? (T : Table) : Val → Option (List Nat)
+  | .obj _ fs =>
+    match (match fs.lookup T.modeKey with | some v => some v | none => fs.lookup T.flagsKey) with
+    | some (.int m) => some (binRev m)
+    | _ => none
+  | _ => none
+
+/-- `schema is not None and schema.name in self.untouchables and field in self.untouchables[schema.name]` -/
+def untouchable (T : Table) (schema : Option Ctor) (field : Nat) : Bool :=
+  match schema with
+  | some c => T.untouch.contains (c.name, field)
+  | none => false
+
+/-- `v.decode()`: only `bytes` has the method (AttributeError = none); invalid UTF-8 raises. -/
+def decode? : Val → Option Val
+  | .bytes b => if utf8Valid b then some (.str b) else none
+  | _ => none
+
+/-- `d[k].append(x)`: KeyError if `k` is missing, AttributeError if the entry is not a list. -/
+def dictAppend? : Val → Nat → Val → Option Val
+  | .obj ty fs, k, x =>
+    match fs.lookup k with
+    | some (.list vs) => some (.obj ty (setField fs k (.list (vs ++ [x]))))
+    | _ => none
+  | _, _, _ => none
+
 end TonVerif.Py.Tl
